@@ -2,7 +2,8 @@
    c11_check  ((value) (type))                   -> projection of the converted value | (error)
    c11a_check (n variadic (pre ...) spread)      -> (deliver (fixed ...) (tail ...)) | (list-as-one ...) | (reject) *)
 From Coq Require Import List ZArith String Ascii Bool.
-From Anko Require Import Base.Sexp Conv.Convert Conv.CallArgs.
+From Coq Require Import Floats.SpecFloat.
+From Anko Require Import Base.Sexp Base.F64 Conv.Convert Conv.CallArgs.
 Import ListNotations.
 Open Scope string_scope.
 
@@ -14,6 +15,7 @@ Fixpoint dec_sval (fuel : nat) (s : sexp) : option sval :=
   | SL [SA "i"; z] => option_map SInt (as_Z z)
   | SL (SA "s" :: bs) => option_map SStr (Sexp.map_opt as_Z bs)
   | SL (SA "l" :: vs) => option_map SList (Sexp.map_opt (dec_sval f) vs)
+  | SL [SA "f"; bits] => option_map (fun b => SFloat (F64.of_bits b)) (as_Z bits)
   | _ => None
   end end.
 
@@ -26,6 +28,7 @@ Fixpoint dec_ty (fuel : nat) (s : sexp) : option ty :=
   | SL [SA "int"; SA n; w] => option_map (TInt n true) (as_Z w)
   | SL [SA "uint"; SA n; w] => option_map (TInt n false) (as_Z w)
   | SL [SA "slice"; e] => option_map TSlice (dec_ty f e)
+  | SL [SA "float"; SA n; w] => option_map (TFloat n) (as_Z w)
   | _ => None
   end end.
 
@@ -42,7 +45,18 @@ Fixpoint ty_name (t : ty) : string :=
   | TInt n _ _ => n
   | TString => "string"
   | TSlice e => "[]" ++ ty_name e
+  | TFloat n _ => n
   end.
+
+(* bit pattern of a binary32 value held as a spec_float (results of round32 are canonical) *)
+Definition to_bits32 (f : f64) : Z :=
+  (let sb (s : bool) := if s then 2 ^ 31 else 0 in
+  match f with
+  | S754_zero s => sb s
+  | S754_infinity s => sb s + 255 * 2 ^ 23
+  | S754_nan => 2143289344
+  | S754_finite s m e => if Zpos m <? 2 ^ 23 then sb s + Zpos m else sb s + (e + 150) * 2 ^ 23 + (Zpos m - 2 ^ 23)
+  end)%Z.
 
 Fixpoint proj_s (v : sval) : string :=
   match v with
@@ -51,6 +65,7 @@ Fixpoint proj_s (v : sval) : string :=
   | SInt z => "int64:" ++ Z_to_string z
   | SStr bs => "string:#" ++ hex_bytes bs ++ "#"
   | SList l => "[]interface {}[" ++ join "," (map proj_s l) ++ "]"
+  | SFloat f => "float64:b" ++ Z_to_string (F64.to_bits f)
   end.
 
 Fixpoint proj_t (v : tval) : string :=
@@ -60,6 +75,7 @@ Fixpoint proj_t (v : tval) : string :=
   | VInt n _ _ z => n ++ ":" ++ Z_to_string z
   | VStr bs => "string:#" ++ hex_bytes bs ++ "#"
   | VSlice e l => "[]" ++ ty_name e ++ "[" ++ join "," (map proj_t l) ++ "]"
+  | VFloat n w f => n ++ ":b" ++ Z_to_string (if (w =? 32)%Z then to_bits32 f else F64.to_bits f)
   end.
 
 Fixpoint sdepth (s : sexp) : nat :=
